@@ -31,18 +31,21 @@ func (h *H) Both(a int) (int, error) {
 }
 func (h *H) None(a int) { h.ran++ }
 
+// Ping takes no parameters: any non-empty params list is a wrong-arity request.
+func (h *H) Ping() { h.ran++ }
+
 type elemSpec struct {
 	idKind    int // 0 absent 1 null 2 string 3 number 4 bool 5 array 6 object
 	idStr     string
 	idNum     int64
-	method    int // 0 Val 1 Err 2 Both 3 None 4 alias->Val 5 unknown
+	method    int // 0 Val 1 Err 2 Both 3 None 4 alias->Val 5 unknown 6 Ping (no parameters)
 	params    int // 0 [x] 1 absent 2 null 3 [] 4 [x,y] 5 ["s"] 6 {} 7 [x] with x fractional
 	x         int64
 	idBearing bool // valid string/number id
 	idInvalid bool
 }
 
-var methodNames = []string{"H.Val", "H.Err", "H.Both", "H.None", "Al", "H.Nope"}
+var methodNames = []string{"H.Val", "H.Err", "H.Both", "H.None", "Al", "H.Nope", "H.Ping"}
 
 // grammar sizes: 2 = full, 1 = compact, 0 = tiny (for long batches)
 func pick(name string, full, compact, tiny []int, gr int) int {
@@ -81,7 +84,7 @@ func mkElem(tag string, gr int) (map[string]interface{}, *elemSpec) {
 		m["id"] = map[string]interface{}{"a": 1}
 		e.idInvalid = true
 	}
-	e.method = pick(tag+"method", []int{0, 1, 2, 3, 4, 5}, []int{0, 2, 4, 5}, []int{0, 5}, gr)
+	e.method = pick(tag+"method", []int{0, 1, 2, 3, 4, 5, 6}, []int{0, 2, 4, 5, 6}, []int{0, 5}, gr)
 	m["method"] = methodNames[e.method]
 	e.params = pick(tag+"params", []int{0, 1, 2, 3, 4, 5, 6, 7}, []int{0, 1, 3, 4, 5}, []int{0, 3}, gr)
 	e.x = verif.Int(tag + "x")
@@ -141,7 +144,7 @@ func checkReply(raw json.RawMessage, e *elemSpec, tag string) {
 		return
 	}
 	// mandated codes
-	arityOK := e.params == 0 || e.params == 5 || e.params == 7
+	arityOK := e.arityOK()
 	switch {
 	case e.idInvalid:
 		verif.Assert(hasErr, tag+"invalid-id-error")
@@ -151,7 +154,7 @@ func checkReply(raw json.RawMessage, e *elemSpec, tag string) {
 		verif.Assert(hasErr, tag+"object-params-error")
 	case !arityOK:
 		verif.Assert(hasErr && *eo.Code == -32602, tag+"wrong-arity-32602")
-	case e.params == 5 || e.params == 7:
+	case e.method != 6 && (e.params == 5 || e.params == 7):
 		verif.Assert(hasErr, tag+"type-mismatch-error")
 	default:
 		// the handler ran: Err/Both fail for negative x
@@ -165,8 +168,26 @@ func checkReply(raw json.RawMessage, e *elemSpec, tag string) {
 	}
 }
 
+// arityOK: the params list has as many elements as the method has parameters
+// (absent, null and [] all mean "no arguments").
+func (e *elemSpec) arityOK() bool {
+	if e.method == 6 {
+		return e.params == 1 || e.params == 2 || e.params == 3
+	}
+	return e.params == 0 || e.params == 5 || e.params == 7
+}
+
 func expectRuns(e *elemSpec) int {
-	if e.idInvalid || e.method == 5 || e.params != 0 {
+	if e.idInvalid || e.method == 5 {
+		return 0
+	}
+	if e.method == 6 {
+		if e.arityOK() {
+			return 1
+		}
+		return 0
+	}
+	if e.params != 0 {
 		return 0
 	}
 	return 1
